@@ -446,6 +446,10 @@ class Interp:
 
     # ---- evaluation
     def eval(self, env, t):
+        if self.events > self.FUEL:
+            # once the fuel is spent nothing else is evaluated: a `finally` or handler that runs while the
+            # Diverges signal unwinds must not replace it by an ordinary outcome
+            raise Diverges()
         op = t[0]
         E = self.eval
         if op == "log":
